@@ -24,7 +24,9 @@ Code(r, ty, plen, tagparser) ==
 FnOf(w) == CASE w = "client" -> "parse_tls_client_hello_extension" [] w = "server" -> "parse_tls_server_hello_extension"
              [] w = "generic" -> "parse_tls_extension"
 SpecCode(tb, ty) ==
-  IF tb.kind = "dispatch"
+  IF tb.kind = "dispatchp"
+  THEN LET b == BE16(ty) \o <<0, tb.plen>> \o tb.payload IN Code(DecExt(tb.which, b, 0, Len(b)), ty, tb.plen, FALSE)
+  ELSE IF tb.kind = "dispatch"
   THEN LET b == BE16(ty) \o <<0, tb.plen>> \o (IF tb.plen = 0 THEN <<>> ELSE <<0>>) \o (IF tb.trail = 0 THEN <<>> ELSE <<0, 23, 0, 0>>)
        IN Code(DecExt(tb.which, b, 0, Len(b)), ty, tb.plen, FALSE)
   ELSE LET b == BE16(ty) \o <<0, 1, 0>> IN Code(DecTagged(tb.own, b, 0, 5), ty, 1, TRUE)
@@ -41,7 +43,8 @@ Judge ==
   LET tb == Tables[i]  want == Rle(tb)
       n == IF Len(tb.rle) < Len(want) THEN Len(tb.rle) ELSE Len(want)
       d == {k \in 1..n : tb.rle[k] # want[k]} IN
-  EmitLine([table |-> IF tb.kind = "dispatch" THEN tb.which \o "/" \o ToString(tb.plen) \o "+" \o ToString(tb.trail) ELSE tb.fn, agree |-> tb.rle = want,
+  EmitLine([table |-> IF tb.kind = "dispatchp" THEN tb.which \o "/payload" \o ToString(tb.payload)
+                      ELSE IF tb.kind = "dispatch" THEN tb.which \o "/" \o ToString(tb.plen) \o "+" \o ToString(tb.trail) ELSE tb.fn, agree |-> tb.rle = want,
             first |-> IF tb.rle = want THEN <<>>
                       ELSE IF d = {} THEN <<n + 1>>
                       ELSE LET k == CHOOSE k \in d : \A h \in d : k <= h IN
